@@ -375,3 +375,37 @@ Proof.
   rewrite (IH es1 _ F' (or_intror eq_refl)).
   destruct (rl_run es1 (map fresh fs)) as [es2 o2]. reflexivity.
 Qed.
+
+(** the same with cleanup ticks between the frames, never two in a row: the list of the
+    stream is touched between any two ticks, so it is only ever marked, never removed *)
+Lemma wrun_ticks ep : forall ops es w prev,
+  Forall (fun f => accepted f = true /\ frame_epoch f = ep) (rframes ops) ->
+  no_adjacent_ticks ops prev = true ->
+  (w = [] /\ es = []) \/
+  (exists b, w = [(ep, {| rl_marked := b; rl_entries := es |})] /\ (b = true -> prev = true)) ->
+  concat (wrun w ops) = snd (rl_run es (map fresh (rframes ops))).
+Proof.
+  induction ops as [|o ops IH]; intros es w prev F NT Hw; [reflexivity|].
+  destruct o as [f|].
+  - cbn [rframes flat_map app] in F |- *. fold (rframes ops) in F |- *.
+    inversion F as [|? ? [Ha He] F']; subst. cbn [no_adjacent_ticks] in NT.
+    cbn [map wrun rstep rl_run]. unfold deliver. rewrite Ha. unfold process_frame.
+    assert (El : match lookup (frame_epoch f) w with Some rl => rl_entries rl | None => [] end = es).
+    { destruct Hw as [[-> ->]|(b & -> & _)]; [reflexivity|]. cbn [lookup]. now rewrite N.eqb_refl. }
+    rewrite El. destruct (insert es (fresh f)) as [es1 o1].
+    assert (Hw1 : update (frame_epoch f) {| rl_marked := false; rl_entries := es1 |} w
+                  = [(frame_epoch f, {| rl_marked := false; rl_entries := es1 |})]).
+    { destruct Hw as [[-> _]|(b & -> & _)]; [reflexivity|]. cbn [update]. now rewrite N.eqb_refl. }
+    rewrite Hw1. cbn [concat].
+    rewrite (IH es1 _ false F' NT).
+    + destruct (rl_run es1 (map fresh (rframes ops))) as [es2 o2]. reflexivity.
+    + right. exists false. split; [reflexivity|discriminate].
+  - cbn [rframes flat_map app] in F |- *. fold (rframes ops) in F |- *.
+    cbn [no_adjacent_ticks] in NT. apply andb_true_iff in NT as [Np NT].
+    apply negb_true_iff in Np. subst prev.
+    cbn [wrun rstep concat app].
+    apply (IH es _ true F NT).
+    destruct Hw as [[-> ->]|(b & -> & Hb)]; [left; split; reflexivity|].
+    right. exists true. split; [|reflexivity].
+    destruct b; [specialize (Hb eq_refl); discriminate|]. reflexivity.
+Qed.
